@@ -357,10 +357,136 @@ def zone_identity(ctx):
     return out
 
 
+def replay_not(ctx):
+    import json
+    import shutil
+    import tempfile
+    from vlib import history
+    binary = native_binary(ctx.log)
+    if binary is None:
+        return False, "native replay program did not build"
+    root = tempfile.mkdtemp(prefix="verif-hist-")
+    try:
+        history.write_config(root, capacity=10, shards=1)
+        qq = "QUERY a WHERE NOT n = 1"
+        script = ('DEFINE a FIELDS { "n": "int" }; STORE a FOR c1 PAYLOAD {"n": 1}; STORE a FOR c1 PAYLOAD {"n": 2}; '
+                  'STORE a FOR c1 PAYLOAD {"n": 3}; !sleep 200; ' + qq + '; FLUSH; !wait; !sleep 400; ' + qq)
+        rc, out, err = history.run_lifetime(binary, root, script)
+        res = []
+        for _i, o in out:
+            if isinstance(o, str) and '"type":"end"' in o:
+                rows = []
+                for line in o.splitlines():
+                    try:
+                        j = json.loads(line)
+                    except ValueError:
+                        continue
+                    if j.get("type") == "batch":
+                        rows += [x[-1] for x in j["rows"]]
+                res.append(sorted(rows))
+        if len(res) < 2:
+            return False, "responses not read"
+        text = (f"events n=1, n=2, n=3 of one zone: `{qq}` returns n={res[0]} while they are in memory and n={res[-1]} after FLUSH")
+        return res[0] != res[-1], text
+    finally:
+        shutil.rmtree(root, ignore_errors=True)
+
+
+def not_zones(ctx):
+    """NOT at zone level: a zone that may hold a row matching F may also hold rows that do not"""
+    b = Builder(ctx, "zone-zone_group_collector-{impl#0}-compute_complement.", "ZoneGroupCollector::compute_complement", {})
+    E, q = b.E, ctx.q
+    r = b.mk("B-6", "zone candidates of NOT F: no zone is dropped because it is a candidate for F - the pruning indexes only say that a zone "
+                    "MAY contain a row matching F, and such a zone can contain rows that do not match F as well (the row filter decides)")
+    out = [b.results["B-6"]]
+    if not r:
+        return out
+    allz = oblig.events(E, r"get_all_zones_for_segments$")
+    if not oblig.need_anchor(r, allz, "get_all_zones_for_segments") or not E.returns:
+        return out
+    r.nontrivial = True
+    filt = [e for e in E.events if re.search(r"Iterator>::filter::<|::filter::<", e.func) and e.span and e.span[0].endswith("zone_group_collector.rs")]
+    keyed = [e for e in E.events if re.search(r"HashSet::<.*>::contains|Iterator>::collect::<.*HashSet", e.func)]
+    for e in filt:
+        res, model = q.check(e.reach, domain=E.domain)
+        r.queries += 1
+        if res == z3.sat:
+            ok, text = replay_not(ctx)
+            r.witness = {"what": "compute_complement returns the zones of the segments minus the zones that are candidates for F (a filter over "
+                                 "all zones keyed by the matching zones): a zone holding rows on both sides of F is not scanned for NOT F - " + text,
+                         "span": f"{e.span[0]}:{e.span[1]}" if e.span else None, "call": e.func[:80],
+                         "path": E.path_of_model(model)[-8:], "model": {}, "native": text}
+            r.status = "violated" if ok else "inconclusive"
+            if not ok:
+                r.notes.append("zones are subtracted but the end-to-end replay shows equal answers: " + text)
+            return out
+    return out
+
+
+def temporal_minmax(ctx):
+    """range predicates on a time column: the per-zone [min, max] test keeps every zone that can hold a match"""
+    b = Builder(ctx, "pruner-temporal_pruner-{impl#0}-apply_temporal_only.", "TemporalPruner::apply_temporal_only", {})
+    E, q = b.E, ctx.q
+    r = b.mk("B-7", "TemporalPruner::apply_temporal_only, range operators: a zone the calendar proposes is kept whenever its [min_ts, max_ts] "
+                    "can contain a value satisfying the comparison (>: max > t, >=: max >= t, <: min < t, <=: min <= t)")
+    out = [b.results["B-7"]]
+    if not r:
+        return out
+    from .prunespec import _fv
+    pushes = [e for e in oblig.events(E, r"CandidateZone::new$") if e.layer == 0]
+    loads = [e for e in oblig.events(E, r"load_field_temporal_index$") if e.layer == 0]
+    from .c06 import enum_variants
+    names = enum_variants("CompareOp", "command/types.rs") or []       # the pruners take command::types::CompareOp
+    idx = {n: (names.index(n) if n in names else None) for n in ("Gt", "Gte", "Lt", "Lte")}
+    if not oblig.need_anchor(r, pushes, "CandidateZone::new") or not oblig.need_anchor(r, loads, "load_field_temporal_index") or None in idx.values():
+        if r.status == "holds":
+            r.status = "inconclusive"
+            r.notes.append("CompareOp variants not found")
+        return out
+    r.nontrivial = True
+    decided = 0
+    for p_ in pushes:
+        fv = _fv(p_.reach)
+        mx = [v for n, v in fv.items() if n.endswith(".max_ts")]
+        mn = [v for n, v in fv.items() if n.endswith(".min_ts")]
+        ops = [v for n, v in fv.items() if re.match(r"disc\(arg:args\.op:Some\.0\)$", n)]
+        ts = E.var_term(p_.env, "ts")
+        if not mx or not mn or not ops or ts is None:
+            continue            # the equality branch (no min/max test) is not this obligation's subject
+        mx, mn, op = mx[0], mn[0], ops[0]
+        mine = [l for l in loads if abs(l.span[1] - p_.span[1]) < 20]
+        ok_load = z3.Or([z3.And(l.reach, z3.BitVec(f"disc({l.site})", 64) == 0) for l in mine]) if mine else z3.BoolVal(False)
+        specs_ = {"Gt": mx > ts, "Gte": mx >= ts, "Lt": mn < ts, "Lte": mn <= ts}
+        for name, may in specs_.items():
+            res, model = q.check(ok_load, op == idx[name], may, z3.Not(p_.reach), domain=E.domain)
+            r.queries += 1
+            if res == z3.sat:
+                mv = model.eval(mx, model_completion=True).as_signed_long()
+                nv = model.eval(mn, model_completion=True).as_signed_long()
+                tv = model.eval(ts, model_completion=True).as_signed_long()
+                r.status = "violated"
+                sym_ = {"Gt": ">", "Gte": ">=", "Lt": "<", "Lte": "<="}[name]
+                r.witness = {"what": f"a zone with min_ts = {nv}, max_ts = {mv} is dropped for `{sym_} {tv}` although it can hold a matching value",
+                             "span": f"{p_.span[0]}:{p_.span[1]}" if p_.span else None, "call": "TemporalPruner::apply_temporal_only",
+                             "path": [], "model": {"op": name, "min_ts": str(nv), "max_ts": str(mv), "t": str(tv)}}
+                return out
+            if res != z3.unsat:
+                r.status = "inconclusive"
+                r.notes.append("solver returned unknown")
+                return out
+            decided += 1
+    if decided == 0:
+        r.status = "inconclusive"
+        r.notes.append("the min / max test of the range branch was not recognised")
+    return out
+
+
 def obligations(ctx):
     q = ctx.q
     out = []
     out += calendar_builder(ctx)
+    out += not_zones(ctx)
+    out += temporal_minmax(ctx)
     out += xor_builder(ctx)
     out += zone_identity(ctx)
     out += bucket_arithmetic(ctx)
